@@ -1499,7 +1499,9 @@ class GroupBy:
 
             arr_len = lengths.pop()
 
-            could_be_non_reduce = arr_len == (len(self) if mask is None else mask.sum())
+            # rows that are passed to func: those with a key (and selected)
+            n_rows_in = len(indexer) if mask is None else mask[indexer].sum()
+            could_be_non_reduce = arr_len == n_rows_in
             could_be_fixed_length = arr_len % len(group_index) == 0
             if could_be_non_reduce and could_be_fixed_length:
                 # very unlikely for large data
